@@ -47,8 +47,17 @@ TRUSTED = [
 ]
 
 
+def _own(g):
+    """the `query_<Class>_historyFree` obligations in the same generated module belong to C06"""
+    g = dict(g)
+    for k in ("flips", "leads", "repaired"):
+        g[k] = [o for o in g[k] if o["kind"] != "history-query"]
+    g["obligations"] = [o for o in g["obligations"] if o["kind"] != "history-query"]
+    return g
+
+
 def generate(ctx):
-    ctx.gen = gen.generate(PROP, ctx)
+    ctx.gen = _own(gen.generate(PROP, ctx))
     # the Gen module is part of LEAN_TARGETS, so its theorems are counted by the axiom audit already
     ctx.notes["generated_obligations_in_audit"] = ctx.notes.pop("generated_obligations", 0)
     ctx.notes.pop("generated_discharged", None)
@@ -57,7 +66,7 @@ def generate(ctx):
 def _gen(ctx):
     g = getattr(ctx, "gen", None)
     if g is None:
-        g = gen.generate(PROP, None, write=False)
+        g = _own(gen.generate(PROP, None, write=False))
         ctx.gen = g
     return g
 
